@@ -66,6 +66,7 @@ def run(ctx):
   from . import c11
   ctx.borrow(c11.rule_scalar, "R-C02-VERIFY")
   ctx.borrow(c11.rule_comb, "R-C02-VERIFY")
+  ctx.borrow(c11.rule_formula, "R-C02-VERIFY", lambda r: r.where.endswith((":EcCurve.Add", ":EcCurve.Double", ":EcCurve.Negate", ":EcCurve.Subtract")))
   ctx.expect("R-C02-VERIFY", 6, "scalar multiplication + comb obligations")
   ctx.expect("R-C02-RELEASE", 5, "three BatchDL stores + two relation strings")
   ctx.expect("R-C02-CODEC", 2, "writer index and reader pair")
